@@ -1,5 +1,6 @@
 """C16 — all secret randomness is drawn fresh from the caller's source and nowhere else."""
 from ..common import *
+from .c19 import mk_items as c19_items, item_str as c19_item_str
 
 ID = "C16"
 LEVEL = "proof"
@@ -24,7 +25,11 @@ def flip(tb, lo, hi, rng):
     return bytes(b)
 
 
-def run_entry(sess, suite, name, mkreq, ndraws, sizes, values):
+def strip_used(raw):
+    return " ".join(x for x in raw.split() if not x.startswith("used="))
+
+
+def run_entry(sess, suite, name, mkreq, ndraws, sizes, values, nz=()):
     """mkreq(tape_hex) -> request; sizes: list of draw sizes in order; values(resp) -> list of per-draw observable values"""
     rng = sess.rng
     total = sum(sizes)
@@ -51,6 +56,15 @@ def run_entry(sess, suite, name, mkreq, ndraws, sizes, values):
         vj = values(rj)
         changed = [i for i in range(min(len(v1), len(vj))) if v1[i] != vj[i]]
         sess.oracle(changed == [j], "%s: changing draw %d changed values %s (expected exactly [%d])" % (name, j, changed, j), [req, reqj])
+    # a zero draw where a key or nonce is sampled must be discarded and redrawn — never replaced by a fixed value
+    for j in nz:
+        off = sum(sizes[:j])
+        tbz = tb[:off] + bytes(sizes[j]) + tb[off:]
+        reqz = mkreq(tbz.hex())
+        rz = sess.call(reqz, EXACT, name + "-zero%d" % j)
+        sess.oracle(rz.ok and strip_used(rz.raw) == strip_used(r1.raw) and int(rz.f.get("used", 0)) == total + sizes[j],
+                    "%s: an all-zero draw %d (key / nonce) was not discarded and redrawn from the source (%s)" % (name, j, rz.raw[:80]), [req, reqz])
+        sess.count("zero-draw")
     sess.count("entry:" + name)
     sess.count("suite:" + suite)
     sess.case("%s|%s" % (name, req), sample={"suite": suite, "entry": name, "draws": sizes})
@@ -62,37 +76,50 @@ def generate(sess):
     for suite in TOY_SUITES + REAL_SUITES:
         d = DRAW[suite]
         fld = Fld(suite)
-        for (n, t) in ([(3, 2), (5, 3), (6, 6)] if thorough else [(4, 3)]):
+        for (n, t) in ([(3, 2), (5, 3), (6, 6)] if thorough else [(5, 3)]):
             ids = make_ids(sess, suite, n, "u16")
             # dealer: key, then t-1 coefficients -> commitment entries 0..t-1
             run_entry(sess, suite, "dealer", lambda tp: "dealer %s n=%d t=%d ids=%s tape=%s" % (suite, n, t, ",".join(ids), tp),
-                      t, [d] * t, lambda r: ss_fields(recs(r["shares"])[0])["comm"])
+                      t, [d] * t, lambda r: ss_fields(recs(r["shares"])[0])["comm"], nz=[0])
             key = fld.enc(fld.rand(rng))
             run_entry(sess, suite, "split", lambda tp: "split %s key=%s n=%d t=%d ids=%s tape=%s" % (suite, key, n, t, ",".join(ids), tp),
                       t - 1, [d] * (t - 1), lambda r: ss_fields(recs(r["shares"])[0])["comm"][1:])
             # dkg part1: key, t-1 coefficients, proof nonce
             run_entry(sess, suite, "dkg1", lambda tp: "dkg1 %s id=%s n=%d t=%d tape=%s" % (suite, ids[0], n, t, tp),
-                      t + 1, [d] * (t + 1), lambda r: r["sp"].split(":")[1].split(",") + [r1_fields(r["pkg"])["R"]])
+                      t + 1, [d] * (t + 1), lambda r: r["sp"].split(":")[1].split(",") + [r1_fields(r["pkg"])["R"]], nz=[0, t])
             run_entry(sess, suite, "refresh_dkg1", lambda tp: "refresh_dkg1 %s id=%s n=%d t=%d tape=%s" % (suite, ids[0], n, t, tp),
-                      t, [d] * t, lambda r: r["sp"].split(":")[1].split(",")[1:] + [r1_fields(r["pkg"])["R"]])
+                      t, [d] * t, lambda r: r["sp"].split(":")[1].split(",")[1:] + [r1_fields(r["pkg"])["R"]], nz=[t - 1])
             # dealer refresh and repair need a group
             rr, shares, pkp = dealer(sess, suite, n, t, ids)
             kps = keypkgs(sess, suite, shares)
             run_entry(sess, suite, "refresh_compute", lambda tp: "refresh_compute %s pkp=%s ids=%s tape=%s" % (suite, pkp, ",".join(ids), tp),
                       t - 1, [d] * (t - 1), lambda r: ss_fields(recs(r["shares"])[0])["comm"])
-            helpers = sorted(ids[:max(t, 2)], key=lambda h: fld.dec(h))
-            run_entry(sess, suite, "repair1", lambda tp: "repair1 %s helpers=%s kp=%s tape=%s participant=%s" % (suite, ",".join(helpers), kps[helpers[0]], tp, ids[-1]),
-                      len(helpers) - 1, [d] * (len(helpers) - 1),
-                      lambda r: [dict(x.split(":") for x in recs(r["deltas"]))[h] for h in helpers[:-1]])
+            # repair part1: |H|-1 blinding values, for exactly t helpers and for every surplus up to n-1
+            for nh in sorted(set([max(t, 2), n - 1] + ([min(t + 1, n - 1)] if thorough else []))):
+                if nh < max(t, 2):
+                    continue
+                helpers = sorted(ids[:nh], key=lambda h: fld.dec(h))
+                run_entry(sess, suite, "repair1", lambda tp: "repair1 %s helpers=%s kp=%s tape=%s participant=%s" % (suite, ",".join(helpers), kps[helpers[0]], tp, ids[-1]),
+                          len(helpers) - 1, [d] * (len(helpers) - 1),
+                          lambda r: [dict(x.split(":") for x in recs(r["deltas"]))[h] for h in helpers[:-1]])
             # randomizer seed
             nonces = {i: commit(sess, suite, kp_fields(kps[i])["share"]) for i in ids[:t]}
             cm = comms_str(nonces)
             vk = pkp_fields(pkp)["vk"]
             run_entry(sess, suite, "rand_new", lambda tp: "rand_new %s vk=%s comms=%s tape=%s" % (suite, vk, cm, tp),
                       1, [fld.n], lambda r: [r["seed"]])
+        # batch verification: one blinder per queued item
+        for k in ([1, 3, 8] if thorough else [3]):
+            items = c19_items(sess, suite, k, max(1, min(3, k)))
+            tb = rng.randbytes(d * k + 64)
+            req = "batch %s items=%s tape=%s" % (suite, c19_item_str(items), tb.hex())
+            r = sess.call(req, EXACT, "batch")
+            sess.oracle(r.ok and int(r.f.get("used", -1)) == d * k, "batch verification of %d items drew %s bytes, expected one blinder of %d bytes per item (%s)" % (k, r.f.get("used"), d, r.raw[:60]), [req])
+            sess.count("entry:batch")
+            sess.case("batch|" + req, sample={"suite": suite, "entry": "batch", "items": k})
         sk = fld.enc(fld.rand(rng))
         run_entry(sess, suite, "single_sign", lambda tp: "single_sign %s sk=%s tape=%s msg=abcd" % (suite, sk, tp),
-                  1, [d], lambda r: [r["sig"].split(":")[0].replace("03", "02", 1) if suite == "secp256k1-tr" else r["sig"].split(":")[0]])
+                  1, [d], lambda r: [r["sig"].split(":")[0].replace("03", "02", 1) if suite == "secp256k1-tr" else r["sig"].split(":")[0]], nz=[0])
 
 
 def search(sess, disagreements):
